@@ -189,6 +189,14 @@ class Rig(object):
             def _wc(c):
                 self.config_writes.append(bytes(c.server_static_public.data) if c.server_static_public else None)
             self.profile.write_config = _wc
+        elif write_config == "real":
+            # the profile's own write_config runs (the configuration lands on disk); the writes are still counted
+            _orig_wc = self.profile.write_config
+
+            def _wc_real(c):
+                self.config_writes.append(bytes(c.server_static_public.data) if c.server_static_public else None)
+                return _orig_wc(c)
+            self.profile.write_config = _wc_real
         self.StackCls = type("RigStack", (YowStack,), {"_YowStack__detachedQueue": queue.Queue()})
         layers = tuple(core_layers if core_layers is not None else YowStackBuilder.getCoreLayers()) + tuple(upper)
         self.stack = self.StackCls(layers, reversed=False, props=dict(props or {}))
